@@ -107,8 +107,17 @@ func orderNamer(n string) namer.Namer {
 func orderUniverse(s *common.OrderSpec) (types.Universe, []*types.Type) {
 	u := types.Universe{}
 	var byID []*types.Type
+	// every other spec is built the way hand-written universes are: package literals stored under their import path,
+	// with the Path field left unset (the order must be a function of the universe's keys, not of that field)
+	bare := 0
+	for _, p := range s.Pkgs {
+		bare += len(p.Path) + len(p.Types)
+	}
 	for _, p := range s.Pkgs {
 		pkg := u.Package(p.Path)
+		if bare%2 == 0 {
+			pkg.Path = ""
+		}
 		add := func(m map[string]*types.Type, names []string, kind types.Kind) {
 			for _, n := range names {
 				t := &types.Type{Name: types.Name{Package: p.Path, Name: n}, Kind: kind}
@@ -137,7 +146,9 @@ func orderIDs(res []*types.Type, byID []*types.Type) []int {
 }
 
 func init() {
-	props["C03"] = common.OrderProperty(common.OrderImpl{
+	// "ex": the canonical order survives the run – every target and generator of one run, sharing one Context, is
+	// offered its types in that order (the executor's filtering must not disturb Context.Order)
+	props["C03"] = common.Combine(map[string]common.Property{"ex": common.ExecProperty(execImpl(), "C04", common.ExecGenSharedContext), "ord": common.OrderProperty(common.OrderImpl{
 		Names: func(s *common.OrderSpec, n string) []string {
 			_, byID := orderUniverse(s)
 			nm := orderNamer(n)
@@ -166,5 +177,5 @@ func init() {
 			o := namer.Orderer{Namer: orderNamer(n)}
 			return orderIDs(o.OrderTypes(in), byID)
 		},
-	})
+	})})
 }
